@@ -448,6 +448,60 @@ Qed.
 Theorem continue_only_after_accepted_request c segs : continue_ok false (serve_seg c segs) = true.
 Proof. unfold serve_seg, serve. apply serve_loop_co. Qed.
 
+(* ---------- extra CRs before the line terminator ---------- *)
+(* only one CR belongs to the terminator (`\r?\n$`): a second one stays in the line *)
+Lemma strip1cr_two_cr s : strip1cr (s ++ [CR; CR]) = s ++ [CR].
+Proof.
+  induction s as [|x s IH]; [reflexivity|].
+  cbn [app]. rewrite strip1cr_cons by (destruct s; discriminate). rewrite IH. reflexivity.
+Qed.
+
+Lemma lstrip_snoc p u z : p z = false -> exists w, lstrip p (u ++ [z]) = w ++ [z].
+Proof.
+  intros H. induction u as [|x u [w IH]].
+  - exists []. cbn [app lstrip]. rewrite H. reflexivity.
+  - cbn [app lstrip]. destruct (p x); [exists w; exact IH|exists (x :: u); reflexivity].
+Qed.
+
+Lemma field_value_ends_cr s : field_value_ok (s ++ [CR]) = false.
+Proof.
+  unfold field_value_ok. destruct (s ++ [CR]) as [|x r] eqn:E; [destruct s; discriminate|].
+  rewrite <- E. rewrite forallb_app. cbn [forallb]. rewrite andb_false_r. reflexivity.
+Qed.
+
+(* a field line that still ends with CR after the terminator was removed is malformed *)
+Lemma parse_line_trailing_cr st name u :
+  token_ok name = true -> parse_line st (name ++ COLON :: u ++ [CR]) = None.
+Proof.
+  intros T. destruct st as [h lk]. destruct (token_ok_parts _ T) as (x & r & E & TA).
+  unfold parse_line. rewrite E. cbn [app].
+  assert (Tx : is_tchar x = true).
+  { rewrite E in TA. cbn [forallb] in TA. apply andb_true_iff in TA as [A _]. exact A. }
+  rewrite (tchar_not_hws _ Tx).
+  change (x :: r ++ COLON :: u ++ [CR]) with ((x :: r) ++ COLON :: u ++ [CR]). rewrite <- E.
+  rewrite split_at_app.
+  2:{ unfold nochar. eapply forallb_imp; [|exact TA]. intros y Hy. apply negb_true_iff.
+      apply (tchar_not y COLON Hy). reflexivity. }
+  unfold strip. destruct (lstrip_snoc is_hws u CR eq_refl) as [w W]. rewrite W.
+  rewrite rstrip_keep by reflexivity. rewrite field_value_ends_cr, andb_false_r. reflexivity.
+Qed.
+
+(* a line of CRs only (what is left of "\r\r\n", "\r\r\r\n", ...) is malformed, not skipped *)
+Lemma parse_line_cr_only st k : parse_line st (repeat CR (Datatypes.S k)) = None.
+Proof.
+  destruct st as [h lk]. unfold parse_line. cbn [repeat].
+  assert (N : forall j, split_at COLON (repeat CR j) = None).
+  { induction j as [|j IH]; [reflexivity|]. cbn [repeat split_at]. rewrite IH. reflexivity. }
+  change (CR :: repeat CR k) with (repeat CR (Datatypes.S k)). rewrite N. reflexivity.
+Qed.
+
+Lemma parse_lines_bad_line a l b : (forall st, parse_line st l = None) ->
+  forall st, parse_lines st (a ++ l :: b) = None.
+Proof.
+  intros H st. rewrite parse_lines_app. destruct (parse_lines st a); [|reflexivity].
+  cbn [parse_lines]. rewrite H. reflexivity.
+Qed.
+
 (* an instance with folds and a closing request *)
 Local Open Scope string_scope.
 Local Open Scope list_scope.
